@@ -93,3 +93,33 @@ Theorem c10_deferred_clause_refuted_without_flags_model :
   && match converges_codes dev_none sh1 I1 tr2 Failed true with [14] => true | _ => false end = true.
 Proof. exact clause_ii_false_without_flags_model. Qed.
 Print Assumptions c10_deferred_clause_refuted_without_flags_model.
+
+(* (ii), PARTIAL: the plan scope, when no failure recorded in the crash image sends Recovery straight to End
+   (MonRecover.short_circuits sh I = false - exactly the condition under which the monitor excuses a skipped deferred
+   group by R2).  If the plan has a deferred group and the plan Wait returns was not bypassed as a whole, that group is
+   Completed or Failed in it: it had a completed run, durably before the crash or in the recovery.  Every flag set.
+   (DeferredInv.DI: memory = durable image on the plan's group statuses; a closed run - real, silent, or the pseudo-run
+   of a group that does not run again - leaves the group terminal in memory; End is reached through
+   PlanDeferredChecks, through a passed bypass, or from a repair that found the deferred group Completed.)
+   NOT proved: the block scopes (they need an engine invariant about durably Completed blocks), so clause 14 of
+   mon_converges stays monitored. *)
+From Coercion.C10x Require Import DeferredSound.
+Theorem c10_plan_deferred_group_ran_partial :
+  forall (d : devs) (sh : shape) (tr1 : list event) (s1 : st) (k : nat),
+    run sh init tr1 = Some s1 ->
+  forall (I : image) (tr : list event) (fin : image) (r0 r : rst),
+    image_agrees (all_objs sh) (fst (crash_image sh tr1 k)) (snd (crash_image sh tr1 k)) I = true ->
+    cst I OPlan = Running ->
+    short_circuits sh I = false ->
+    rinit sh (dimg_of_image I) (im_reason I) = Some r0 ->
+    rrun d sh r0 (tr ++ [EvRelease fin]) = Some r ->
+    grp_present sh SPlan GDeferred = true -> scope_entered sh fin SPlan = true ->
+    finished fin (OChecks SPlan GDeferred) = true.
+Proof. intros d sh tr1 s1 k H I tr fin r0 r Ha Hp Hs. exact (crash_plan_deferred_ran sh tr1 s1 k H I Ha Hp Hs d tr fin r0 r). Qed.
+Print Assumptions c10_plan_deferred_group_ran_partial.
+
+(* ... whose hypotheses hold of a real recovery (VERIF_SEED=1, plan 5009, crash after write 6: the plan's pre group is
+   running, nothing failed durably yet; the recovery re-runs it, it fails, PlanDeferredChecks runs the deferred group) *)
+Theorem c10_partial_ii_hypotheses_satisfiable : hyps_hold real_run2 real_rec2 6 && deferred_hyps_hold real_rec2 = true.
+Proof. exact partial_ii_hypotheses_satisfiable_on_a_real_recovery. Qed.
+Print Assumptions c10_partial_ii_hypotheses_satisfiable.
